@@ -77,6 +77,9 @@ def generic_runner(P, exe, model_ok, rng, tier, replay=None):
     certs = {}
     for sid, lines in scns:
         si = impl.get(sid)
+        if sid in notes and notes[sid][0] == -99:
+            dist["not_run_after_repeated_hangs"] = dist.get("not_run_after_repeated_hangs", 0) + 1
+            continue
         if si is None:
             fails.append(dict(clause="harness_no_output", cause="other", witness="scenario %s produced no transcript" % sid, scenario_text=text_of[sid]))
             continue
